@@ -3,7 +3,7 @@ CONSTANTS
   Streams = {1}
   SameAddr = FALSE
   Writers = {1}
-  Q = 2
+  Q = 100
   InitHead = 2
   MaxR = 4
   Froms = {0, 1, 2, 3}
